@@ -56,6 +56,7 @@ type blockRec struct {
 	cheaters     []idx.ValidatorID
 	applied      []hash.Event
 	sealed       bool
+	noapply      bool
 }
 
 type inst struct {
@@ -68,6 +69,7 @@ type inst struct {
 	input    *evStore
 	blocks   []blockRec
 	allBlocks []blockRec // every block since the instance was created (kept as handed over)
+	noApplyMod uint64    // > 0: blocks whose frame is a multiple of it get no ApplyEvent callback
 	spec     map[uint64]*dag.MutableBaseEvent // event objects of speculative builds (for `rebuild`)
 	rootsCfg int // 0: cache 0/0, 1: 1/1, 2: 2/2, 3: lite default
 	critErr  string
@@ -140,8 +142,14 @@ func (in *inst) boot(genesis *pos.Validators) {
 			// the application keeps the block (and its cheaters slice) as handed over, without copying
 			rec := blockRec{epoch: uint64(in.store.GetEpoch()), frame: uint64(in.store.GetLastDecidedFrame()) + 1,
 				atropos: block.Atropos, cheaters: block.Cheaters}
+			apply := func(e dag.Event) { rec.applied = append(rec.applied, e.ID()) }
+			if in.noApplyMod > 0 && rec.frame%in.noApplyMod == 0 {
+				// the application does not listen to the events of this block
+				apply = nil
+				rec.noapply = true
+			}
 			return lachesis.BlockCallbacks{
-				ApplyEvent: func(e dag.Event) { rec.applied = append(rec.applied, e.ID()) },
+				ApplyEvent: apply,
 				EndBlock: func() *pos.Validators {
 					nv := in.r.seals[[2]uint64{rec.epoch, rec.frame}]
 					rec.sealed = nv != nil
@@ -192,8 +200,11 @@ func (r *consRunner) fmtBlocks(bs []blockRec) string {
 		if b.sealed {
 			seal = ":seal"
 		}
-		parts[i] = fmt.Sprintf("%d.%d:a=%s:ch=[%s]:ev=[%s]:n=%d%s", b.epoch, b.frame, r.num(b.atropos), strings.Join(ch, ","),
-			JoinU(evs, ","), len(b.applied), seal)
+		evStr := fmt.Sprintf("[%s]:n=%d", JoinU(evs, ","), len(b.applied))
+		if b.noapply {
+			evStr = "skip"
+		}
+		parts[i] = fmt.Sprintf("%d.%d:a=%s:ch=[%s]:ev=%s%s", b.epoch, b.frame, r.num(b.atropos), strings.Join(ch, ","), evStr, seal)
 	}
 	return strings.Join(parts, " ")
 }
@@ -242,7 +253,7 @@ func kvOf(ws []string) map[string]string {
 func (r *consRunner) Step(line string) string {
 	f := Fields(line)
 	switch f[0] {
-	case "restart", "reset", "build", "rebuild", "process", "fc", "hb", "roots", "state", "allblocks":
+	case "restart", "reset", "build", "rebuild", "process", "fc", "hb", "roots", "state", "allblocks", "noapply":
 		if len(f) < 2 || r.insts[Atou(f[1])] == nil {
 			return "noinst"
 		}
@@ -421,6 +432,10 @@ func (r *consRunner) Step(line string) string {
 			return "-"
 		}
 		return strings.Join(parts, " ")
+	case "noapply": // noapply <k> <m>: instance k passes a nil ApplyEvent for blocks whose frame is a multiple of m
+		in := r.insts[Atou(f[1])]
+		in.noApplyMod = Atou(f[2])
+		return "ok"
 	case "allblocks": // every block the application received so far: epoch.frame:cheaters
 		in := r.insts[Atou(f[1])]
 		parts := make([]string, len(in.allBlocks))
@@ -621,6 +636,9 @@ func genConsCase(r *Rand, tier string, w *bufio.Writer) {
 	ninst := 2 + r.Intn(2)
 	for k := 0; k < ninst; k++ {
 		emit("inst %d %d", k, (k+r.Intn(4))%4)
+	}
+	if r.Chance(1, 4) {
+		emit("noapply %d %d", r.Intn(ninst), 1+r.Intn(3))
 	}
 	maxEv := 30 + r.Intn(90)
 	if tier == "thorough" {
